@@ -15,6 +15,18 @@ from . import spaces
 ID = "C08"
 
 
+def mkpv(mem, mix):
+    """observing subclass with an evaluation budget: a flux calculation needing more than 20000 evaluations raises
+    solver.Budget on every entry point alike (they run the same iteration), so such states are simply not judged."""
+    return solver.ObservedPV(membrane=mem, mixture=mix).observe(budget=20000, detect=False)
+
+
+def same_number(a, b, tol_abs):
+    if math.isinf(a) or math.isinf(b) or math.isnan(a) or math.isnan(b):
+        return (math.isnan(a) and math.isnan(b)) or a == b
+    return abs(a - b) <= tol_abs
+
+
 def sep_factor(y, x):
     return (y / (1 - y)) / (x / (1 - x))
 
@@ -26,11 +38,13 @@ def judge_entry(case):
     kw = U.permeate_kwargs(mode, t)
     comp = U.composition(x, case["basis"], mix)
     mem = U.make_membrane(mix, case["P"][0], case["P"][1], t_ref=t, ea1=25000.0, ea2=60000.0)
-    pv = U.Pervaporation(membrane=mem, mixture=mix)
+    pv = mkpv(mem, mix)
     st, J = core.call(pv.calculate_partial_fluxes, feed_temperature=t, composition=comp, precision=prec, calculation_type=model, **kw)
     if st != "ok":
         return core.result("solver-raised", nontrivial=False)
     J = (float(J[0]), float(J[1]))
+    if not (J[0] >= 0 and J[1] >= 0 and J[0] + J[1] > 0):
+        return core.result("solver-backflow", nontrivial=False)  # a negative flux: the helpers legitimately reject its "composition"
     other = "UNIQUAC" if model == "NRTL" else "NRTL"
     Jo = None
     if U.has_model(mix, other):
@@ -41,18 +55,18 @@ def judge_entry(case):
     v = []
     # order of questions: the same object asked with the OTHER model first must still honour the requested model
     if U.has_model(mix, other):
-        pv_b = U.Pervaporation(membrane=mem, mixture=mix)
+        pv_b = mkpv(mem, mix)
         core.call(pv_b.calculate_partial_fluxes, feed_temperature=t, composition=comp, precision=prec, calculation_type=other, **kw)
         sb, Jb = core.call(pv_b.calculate_partial_fluxes, feed_temperature=t, composition=comp, precision=prec, calculation_type=model, **kw)
         if sb != "ok" or not all(core.bit_eq(Jb[i], J[i]) for i in (0, 1)):
             v.append(core.viol("C08/model_not_honoured/after_other_model", "flux calculation asked for %s right after the same state was asked with %s on the same object returns %r, a fresh object returns %r" % (
                 model, other, Jb if sb != "ok" else (float(Jb[0]), float(Jb[1])), J)))
         for name, f in (("permeate_composition", pv_b.calculate_permeate_composition), ("separation_factor", pv_b.calculate_separation_factor)):
-            pv_c = U.Pervaporation(membrane=mem, mixture=mix)
+            pv_c = mkpv(mem, mix)
             f_c = getattr(pv_c, f.__name__)
             s1, r1 = core.call(f_c, feed_temperature=t, composition=comp, precision=prec, calculation_type=other, **kw)
             s2, r2 = core.call(f_c, feed_temperature=t, composition=comp, precision=prec, calculation_type=model, **kw)
-            s3, r3 = core.call(getattr(U.Pervaporation(membrane=mem, mixture=mix), f.__name__), feed_temperature=t, composition=comp, precision=prec, calculation_type=model, **kw)
+            s3, r3 = core.call(getattr(mkpv(mem, mix), f.__name__), feed_temperature=t, composition=comp, precision=prec, calculation_type=model, **kw)
             if s2 == "ok" and s3 == "ok" and not core.bit_eq(float(getattr(r2, "p", r2)), float(getattr(r3, "p", r3))):
                 v.append(core.viol("C08/model_not_honoured/after_other_model/" + name, "%s asked for %s after %s on the same object gives %r, on a fresh object %r" % (
                     name, model, other, float(getattr(r2, "p", r2)), float(getattr(r3, "p", r3)))))
@@ -121,7 +135,7 @@ def judge_entry(case):
             if not core.close(float(curve.get_separation_factor[0]), want_sf, 1e-11):
                 v.append(core.viol("C08/separation_factor/ideal_curve", "curve separation factor %r, (y1/y2)/(x1/x2) in mass basis = %r" % (float(curve.get_separation_factor[0]), want_sf)))
             psi = float(curve.get_psi[0])
-            if not abs(psi - (J[0] + J[1]) * (want_sf - 1)) <= 1e-11 * abs(J[0] + J[1]) * (abs(want_sf) + 1):
+            if not same_number(psi, (J[0] + J[1]) * (want_sf - 1), 1e-11 * abs(J[0] + J[1]) * (abs(want_sf) + 1)):
                 v.append(core.viol("C08/psi/ideal_curve", "curve PSI %r, total flux x (separation factor - 1) = %r" % (psi, (J[0] + J[1]) * (want_sf - 1))))
     # step 0 of the ideal process models
     cond = U.Conditions(membrane_area=0.05, initial_feed_temperature=t, initial_feed_amount=50.0, initial_feed_composition=comp,
@@ -185,7 +199,7 @@ def judge_trace(case):
                 v.append(core.viol("C08/separation_factor/" + setup.kind, "step %d separation factor %r, (y1/y2)/(x1/x2) = %r" % (k, sfs[k], want)))
                 break
             tot = tr["J"][k][0] + tr["J"][k][1]
-            if not abs(psis[k] - tot * (want - 1)) <= 1e-11 * abs(tot) * (abs(want) + 1):
+            if not same_number(psis[k], tot * (want - 1), 1e-11 * abs(tot) * (abs(want) + 1)):
                 v.append(core.viol("C08/psi/" + setup.kind, "step %d PSI %r, total flux x (separation factor - 1) = %r" % (k, psis[k], tot * (want - 1))))
                 break
     return core.result("returned", digest=traces.trace_digest(tr), viol=v, states=tr["n"], transitions=max(tr["n"] - 1, 0), traces=1,
